@@ -618,6 +618,11 @@ def configs(tier, seed):
                         continue        # > 100 paths (clip thresholds of the non-square radius x 12 free mask entries)
                     out.append({"id": "outer:%s:calib=%s:crop=%s:seed=%s" % (img, list(calib), crop, sd), "h": "outer", "img": img, "calib": list(calib),
                                 "crop": crop, "seed": sd, "max_paths": 2000, "cost": img[0] * img[1]})
+    # a large calibration block whose corners lie outside the plain inscribed ellipse of the grid: they must survive corner cropping
+    out.append({"id": "outer:[8, 8]:calib=[6, 6]:crop=True:seed=0", "h": "outer", "img": [8, 8], "calib": [6, 6], "crop": True, "seed": 0,
+                "max_paths": 2000, "cost": 200})
+    out.append({"id": "outer:[6, 8]:calib=[4, 6]:crop=True:seed=0", "h": "outer", "img": [6, 8], "calib": [4, 6], "crop": True, "seed": 0,
+                "max_paths": 2000, "cost": 200})
     for img, c1, c0 in (([4, 4], (0, 0), (2, 2)), ([4, 4], (2, 2), (0, 0)), ([3, 4], (1, 2), (1, 0))) + ((([5, 4], (1, 2), (3, 2)),) if full else ()):
         for crop in (True, False):
             if not crop and not (full and img == [4, 4] and c1 == (2, 2)):
